@@ -62,8 +62,17 @@ PROPS2 = {
     },
     "C23": {
         "level": "Multiport memories, well-formedness: delay-register shapes (address vs. data; F1 fixed), read/write port index agreement, skip-own-index "
-        "maps of the XOR/ILVT banks, transparency control, init placement, granularity consistency (known finding F4).",
-        "undecided": "equivalence with an ideal multiport memory over all histories.",
+        "maps of the XOR/ILVT banks, transparency control, init placement, granularity consistency (known finding F4). Timing coherence by an "
+        "age inference over the extracted netlist (every value = user port signals of some age; clocked assignment and inner memory read add "
+        "one cycle): inner write ports get address/enable/data of one age, inner read ports are addressed unregistered, forwarding multiplexers "
+        "compare a one-cycle-old read address with a write address of age k and forward that write's data of age k under its enable, every "
+        "write age not yet visible through the inner read has a forwarding path (coverage), same-cycle forwarding exists exactly for "
+        "transparent_for members, the output depends on read signals of age exactly 1, hold multiplexer and hold register. Port objects "
+        "(registration, enable default 1, shapes, options), named-submodule index spaces, table decoding (Encoder iff one-hot coded), and the "
+        "one-hot coding read as tables for 2..4 write ports: a write makes the writer win every bank pair, every pair has complementary tests, "
+        "feedback ports addressed by the writer's own address, vector widths.",
+        "undecided": "equivalence with an ideal multiport memory over all histories (the obligations are the steps of the inductive argument, their "
+        "composition is not machine-checked); per-element identity inside per-port lists beyond the index rules.",
         "technique": T_PLUMB,
     },
     "C24": {
